@@ -354,7 +354,8 @@ Record cfg := mkCfg {
   c_list : bool;        (* the collection is a TSL (else a TSD) *)
   c_lifted : bool;      (* lifted scalar kernel (else a generic combiner graph) *)
   c_has_zero : bool;
-  c_zero : Z
+  c_zero : Z;
+  c_zero_valid : bool   (* the zero input has a value (a scalar zero always; a live zero after its first tick) *)
 }.
 
 Section WithCombiner.
@@ -366,7 +367,7 @@ Definition src_value (st : store) (combs : list (option comb)) (s : src) : optio
   | SNone => None
   | SLeaf slot => slot_value st slot
   | SNode p => match nth_opt p combs with Some (Some c) => cb_out c | _ => None end
-  | SZero => if c_has_zero cf then Some (c_zero cf) else None
+  | SZero => if c_has_zero cf && c_zero_valid cf then Some (c_zero cf) else None
   end.
 
 (* aggregate_output: the output an aggregate aliases *)
@@ -592,7 +593,16 @@ Definition reduce_cycle (st : store) (d : delta) (coll_event zero_event : bool) 
       | SZero => zero_event
       | SNone => false
       end in
-  mkOut s2 log true (pub_changed || src_ticked).
+  (* a re-point ticks when the new source has a value, or when a value that was published is lost *)
+  let new_has_value := match src_value st combs (r_pub s2) with Some _ => true | None => false end in
+  let old_had_value :=
+      match r_pub s0 with
+      | SNone => false
+      | SLeaf _ => true
+      | SNode p => match nth_opt p (r_combs s0) with Some (Some c) => (match cb_out c with Some _ => true | None => false end) | _ => false end
+      | SZero => c_has_zero cf && c_zero_valid cf
+      end in
+  mkOut s2 log true ((pub_changed && (new_has_value || old_had_value)) || src_ticked).
 
 Definition result_of (st : store) (s : rstate) : option Z := src_value st (r_combs s) (r_pub s).
 
@@ -646,9 +656,28 @@ Definition opt_line (o : option Z) : list Z := match o with Some v => [1; v] | N
 Definition delta_nonempty (d : delta) : bool :=
   match d_rem d, d_add d, d_mod d with [], [], [] => false | _, _, _ => true end.
 
-Definition run_cycle (cf : cfg) (w : wire) (acc : store * rstate * wire) (c : nat) : store * rstate * wire :=
+(* a live zero: its tick in cycle c (last line wins), and its current value after cycle c *)
+Definition ztick_of (c : Z) (w : wire) : option Z :=
+  fold_left (fun acc l => match l with
+                          | 5 :: c' :: v :: _ => if c' =? c then Some v else acc
+                          | _ => acc
+                          end) w None.
+
+Fixpoint zero_at (w : wire) (c : nat) : option Z :=
+  match ztick_of (zn c) w with
+  | Some v => Some v
+  | None => match c with O => None | S c' => zero_at w c' end
+  end.
+
+Definition run_cycle (live_zero : bool) (cf0 : cfg) (w : wire) (acc : store * rstate * wire) (c : nat) : store * rstate * wire :=
   let '(st, s, out) := acc in
   let cz := zn c in
+  let cf := if live_zero
+            then match zero_at w c with
+                 | Some v => mkCfg (c_list cf0) (c_lifted cf0) true v true
+                 | None => mkCfg (c_list cf0) (c_lifted cf0) true 0 false
+                 end
+            else cf0 in
   let t := 1 + cz in
   let sets := sets_of cz w in
   let rems := rems_of cz w in
@@ -668,7 +697,8 @@ Definition run_cycle (cf : cfg) (w : wire) (acc : store * rstate * wire) (c : na
             let ev := delta_nonempty d || (negb (st_valid st) && match rems with [] => true | _ => false end) in
             if ev then (store_validate st', d, true) else (st', delta0, false)
         end in
-  let zero_event := c_has_zero cf && (c =? 0)%nat in
+  let zero_event := if live_zero then (match ztick_of cz w with Some _ => true | None => false end)
+                    else c_has_zero cf && (c =? 0)%nat in
   let o := reduce_cycle Z.add cf st' d coll_event zero_event s in
   let s' := o_state o in
   let res := result_of cf st' s' in
@@ -713,13 +743,14 @@ Definition run_reduce (w : wire) : wire :=
   if (h_n h <? 0) || (200 <? h_n h) then [[39; 1]]
   else
     let coll := if h_coll h =? 0 then 0 else if h_coll h =? 1 then 1 else 2 in
-    if negb (keys_ok coll w) then [[39; 3]]
+    if (h_hz h =? 2) && (coll =? 2) then [[39; 4]]
+    else if negb (keys_ok coll w) then [[39; 3]]
     else
       let hz := negb (h_hz h =? 0) in
       let cycles := rev (down_from (Z.to_nat (h_n h))) in
       if (coll =? 2) && (h_comb h =? 0) && negb hz
       then snd (fold_left (run_cycle_lifted_tsl w) cycles (store0, []))
       else
-        let cf := mkCfg (negb (coll =? 0)) (h_comb h =? 0) hz (h_zero h) in
-        let '(_, _, out) := fold_left (run_cycle cf w) cycles (store0, rstate0, []) in
+        let cf := mkCfg (negb (coll =? 0)) (h_comb h =? 0) hz (h_zero h) true in
+        let '(_, _, out) := fold_left (run_cycle (h_hz h =? 2) cf w) cycles (store0, rstate0, []) in
         out.
